@@ -79,8 +79,10 @@ def source_digest(relpath, qualname):
 # ---------------------------------------------------------------------------
 # AST transformation
 
-def _assigned_names(nodes):
+def _assigned_names(nodes, attrs=None):
     names, stores = [], []
+    if attrs is None:
+        attrs = []
 
     class V(ast.NodeVisitor):
         def visit_Name(self, n):
@@ -94,6 +96,12 @@ def _assigned_names(nodes):
                     b = b.value
                 if isinstance(b, ast.Name) and b.id not in stores:
                     stores.append(b.id)
+            self.generic_visit(n)
+
+        def visit_Attribute(self, n):
+            if isinstance(n.ctx, ast.Store) and isinstance(n.value, ast.Name):
+                if (n.value.id, n.attr) not in attrs:
+                    attrs.append((n.value.id, n.attr))
             self.generic_visit(n)
 
         def visit_FunctionDef(self, n):
@@ -163,19 +171,21 @@ class LoopCutter(ast.NodeTransformer):
         self.path.pop()
         if node.orelse:
             raise Unsupported("loop else clause in %s loop %s" % (self.fname, lid))
-        names, stores = _assigned_names(node.body + ([node.target] if is_for else []))
+        attrs = []
+        names, stores = _assigned_names(node.body + ([node.target] if is_for else []), attrs)
         if is_for:
             tnames, _ = _assigned_names([node.target])
         else:
             tnames = []
         mod = [x for x in names if not x.startswith("_vc_")]
-        self.loops[lid] = dict(line=node.lineno, kind="for" if is_for else "while", modified=mod, stores=stores)
+        self.loops[lid] = dict(line=node.lineno, kind="for" if is_for else "while", modified=mod, stores=stores,
+                               attrs=attrs)
         L = "_vc_L" + lid.replace(".", "_")
         brk = "_vc_brk" + lid.replace(".", "_")
         src_lines = []
         # build with ast.parse of a template for readability
         tmpl = f"""
-{L} = _vc_rt.loop({lid!r}, {'_vc_ITER' if is_for else 'None'}, {mod!r}, {stores!r})
+{L} = _vc_rt.loop({lid!r}, {'_vc_ITER' if is_for else 'None'}, {mod!r}, {stores!r}, {attrs!r})
 if {L}.concrete:
     _vc_CONCRETE
 else:
@@ -422,6 +432,37 @@ def vc_int(x=0, *a):
     return builtins.int(x, *a)
 
 
+import numbers as _numbers
+_numbers.Integral.register(SymInt)
+_numbers.Real.register(SymReal)
+
+
+class patched_modules:
+    """context manager: give repository modules (e.g. the check_* helpers) the
+    symbolic-aware builtins"""
+
+    def __init__(self, modnames, names=("isinstance", "len")):
+        self.modnames, self.names = modnames, names
+
+    def __enter__(self):
+        import importlib
+        self.saved = []
+        for mn in self.modnames:
+            m = importlib.import_module(mn)
+            for n in self.names:
+                had = n in vars(m)
+                self.saved.append((m, n, had, vars(m).get(n)))
+                setattr(m, n, OVERRIDES[n])
+        return self
+
+    def __exit__(self, *exc):
+        for m, n, had, old in self.saved:
+            if had:
+                setattr(m, n, old)
+            else:
+                delattr(m, n)
+
+
 OVERRIDES = dict(len=vc_len, range=vc_range, enumerate=vc_enumerate, zip=vc_zip, min=vc_min, max=vc_max,
                  isinstance=vc_isinstance)
 
@@ -429,11 +470,12 @@ OVERRIDES = dict(len=vc_len, range=vc_range, enumerate=vc_enumerate, zip=vc_zip,
 class LoopRT:
     """runtime object of one dynamic loop instance"""
 
-    def __init__(self, owner, lid, it, modified, stores):
+    def __init__(self, owner, lid, it, modified, stores, attrs=()):
         self.owner = owner
         self.lid = lid
         self.modified = modified
         self.stores = stores
+        self.attrs = list(attrs)
         self.spec = owner.loop_specs.get(lid)
         self.sym = False
         if it is None:          # while loop
@@ -511,6 +553,20 @@ class LoopRT:
                 v._fn = fresh._fn
             elif v is not None and s not in self.modified:
                 raise Unsupported("loop stores into %s of type %s" % (s, type(v)))
+        # attributes assigned in the body (obj.attr = ...), plus those the contract declares
+        # as modified through calls (spec.extra_attrs)
+        extra = list(getattr(self.spec, "extra_attrs", ()))
+        for oname, attr in self.attrs + extra:
+            o = loc.get(oname)
+            if o is None:
+                continue
+            curv = getattr(o, attr, _UNBOUND)
+            nv = self._fresh_like("%s.%s" % (oname, attr), curv)
+            if nv is not _UNBOUND:
+                setattr(o, attr, nv)
+        hook = getattr(self.spec, "on_havoc", None)
+        if hook:
+            hook(loc, self)
         new = dict(loc)
         for m in self.modified:
             v = loc.get(m, _UNBOUND)
@@ -545,6 +601,8 @@ class LoopRT:
             return EArr.fresh("hv_" + name, shp, v._dt)
         if v is None:
             return None
+        if isinstance(v, dict):
+            return Token(e.fresh_name("hv_" + name))
         hook = self.owner.havoc_hooks.get(type(v))
         if hook:
             return hook(name, v)
@@ -566,6 +624,24 @@ class LoopRT:
         self.k = wrap(_t(self.k) + 1)
         self._prove_all("preserve", self._state(loc, "preserve"))
         raise PathEnd()
+
+
+class Token(dict):
+    """an opaque container (a dict, so the repository's check_is_dict passes)
+    whose content is arbitrary; identity is what contracts talk about"""
+
+    def __init__(self, name, origin=None):
+        dict.__init__(self)
+        self.name = name
+        self.origin = origin
+
+    def __repr__(self):
+        return "<%s>" % self.name
+
+    __hash__ = object.__hash__
+
+    def __eq__(self, o):
+        return self is o
 
 
 class _Unbound:
@@ -631,8 +707,8 @@ class Extracted:
         m = importlib.import_module(modname)
         return vars(m)
 
-    def loop(self, lid, it, modified, stores):
-        return LoopRT(self, lid, it, modified, stores)
+    def loop(self, lid, it, modified, stores, attrs=()):
+        return LoopRT(self, lid, it, modified, stores, attrs)
 
     def __call__(self, *a, **k):
         return self.fn(*a, **k)
